@@ -51,8 +51,12 @@ def random_stream(rng, kind):
             ty = rng.choice([0x32, 0x33, 0x33, 0x31, 0x34])
             n = {0x31: 2, 0x32: 7, 0x33: 14, 0x34: 2}[ty]
             body = rb(7) + rb(n)
-            if ty in (0x32, 0x33) and rng.random() < 0.8:
+            u = rng.random()
+            if ty in (0x32, 0x33) and u < 0.7:
                 body[7] = (rng.choice([0, 4, 5, 11] if ty == 0x32 else [16, 17, 18, 20, 21]) << 3) | (body[7] & 7)
+            elif ty in (0x32, 0x33) and u < 0.9:
+                # a downlink format that does not go with the frame type (the readers drop these as incomplete)
+                body[7] = (rng.choice([0, 4, 5, 11] if ty == 0x33 else [16, 17, 18, 19, 20, 21, 24]) << 3) | (body[7] & 7)
             frs.append({"ty": ty, "body": body})
         elif kind == "raw":
             n = rng.choice([7, 14])
@@ -98,9 +102,13 @@ def vectors(ctx, streams):
         kind = rng.choice(["beast", "beast", "raw", "skysense"])
         frs = random_stream(rng, kind)
         n = wire_len(kind, frs)
-        for _ in range(3):
+        rssi_ok = kind == "beast" and all(len(fr["body"]) > 6 and fr["body"][6] != 0 for fr in frs)
+        for j in range(3):
             k = rng.randint(0, min(n - 1, 12))
-            V.append({"fn": "stream.run", "kind": kind, "frs": frs, "cuts": sorted(rng.sample(range(1, n), k))})
+            v = {"fn": "stream.run", "kind": kind, "frs": frs, "cuts": sorted(rng.sample(range(1, n), k))}
+            if rssi_ok and j == 1:
+                v["reader"] = "rssi"
+            V.append(v)
         V.append({"fn": "stream.run", "kind": kind, "frs": frs, "cuts": list(range(1, n))})
     # NetSource: batches of handed-over messages
     for _ in range(ctx.pick(200, 5000)):
